@@ -29,7 +29,7 @@ Proof.
   destruct (match prefix with Some p => has_space p | None => false end); [exact H|].
   destruct (match dget (p2n s) (odefault prefix []) with Some b => truthy b && negb (str_eqb b ns) | None => false end).
   - destruct rep; [apply F, tinv_store_bind, H|].
-    destruct (find_num s _ ns _ 1); [exact H|apply F, tinv_store_bind, H].
+    destruct (find_num s _ ns _ 1); [exact H|apply F, tinv_store_bind, H|exact H].
   - destruct (dget (n2p s) ns) as [bp|]; [|apply F, tinv_store_bind, H].
     destruct (str_eqb bp (odefault prefix [])); [apply F; exact H|].
     destruct (ov || starts_with bp [95%N]); apply F; [apply tinv_store_bind, H|exact H].
